@@ -7,7 +7,10 @@ use std::ffi::{c_void, CString};
 use std::io::{Error, ErrorKind};
 use std::mem::size_of;
 use std::path::Path;
+#[cfg(not(aws_clock_bound_verif))]
 use std::sync::atomic;
+#[cfg(aws_clock_bound_verif)]
+use verif_rt::atomic;
 use std::{fs, ptr};
 
 use std::io::Seek;
@@ -67,6 +70,13 @@ impl ShmWriter {
     ///
     /// TODO: implement scenario 3 once the readers support a version bump.
     pub fn new(path: &Path) -> std::io::Result<ShmWriter> {
+        #[cfg(aws_clock_bound_verif)]
+        let path_redirected = verif_rt::shm::redirect_path(path);
+        #[cfg(aws_clock_bound_verif)]
+        let path = path_redirected.as_path();
+        #[cfg(aws_clock_bound_verif)]
+        verif_rt::point("new:probe");
+
         // Determine the size of the segment.
         let segsize = ShmWriter::segment_size();
 
@@ -81,8 +91,14 @@ impl ShmWriter {
             ShmWriter::wipe(path, segsize)?
         }
 
+        #[cfg(aws_clock_bound_verif)]
+        verif_rt::point("new:mmap");
+
         // Memory map the file.
         let addr = ShmWriter::mmap_segment_at(path, segsize)?;
+
+        #[cfg(aws_clock_bound_verif)]
+        verif_rt::shm::register_mapping_path(addr.cast(), segsize, path);
 
         // Obtain raw pointers to relevant members in the memory map segment and create a new
         // writer.
@@ -159,6 +175,9 @@ impl ShmWriter {
     fn wipe(path: &Path, segsize: usize) -> std::io::Result<()> {
         // Attempt at creating intermediate directories, but do expect that the base permissions
         // are set correctly.
+        #[cfg(aws_clock_bound_verif)]
+        verif_rt::point_io("wipe:mkdir")?;
+
         if let Some(parent) = path.parent() {
             match parent.to_str() {
                 Some("") => (), // This would be a relative path without parent
@@ -174,6 +193,9 @@ impl ShmWriter {
 
         // Opens the file in write-only mode. Create a file if it does not exist, and truncate it
         // if it does.
+        #[cfg(aws_clock_bound_verif)]
+        verif_rt::point_io("wipe:create")?;
+
         let mut file = std::fs::File::create(path)?;
 
         // In theory, usize may not fit within a u32. In practice, we
@@ -191,15 +213,27 @@ impl ShmWriter {
         };
 
         // Write the ShmHeader
+        #[cfg(aws_clock_bound_verif)]
+        verif_rt::point_io("wipe:magic0")?;
         file.write_u32::<NativeEndian>(SHM_MAGIC[0])?; // Magic number 0
+        #[cfg(aws_clock_bound_verif)]
+        verif_rt::point_io("wipe:magic1")?;
         file.write_u32::<NativeEndian>(SHM_MAGIC[1])?; // Magic number 1
+        #[cfg(aws_clock_bound_verif)]
+        verif_rt::point_io("wipe:segsize")?;
         file.write_u32::<NativeEndian>(size)?; // Segsize
+        #[cfg(aws_clock_bound_verif)]
+        verif_rt::point_io("wipe:version")?;
         file.write_u16::<NativeEndian>(0)?; // Version
+        #[cfg(aws_clock_bound_verif)]
+        verif_rt::point_io("wipe:generation")?;
         file.write_u16::<NativeEndian>(0)?; // Generation
 
         // Zero the rest of the segment
         let remaining = segsize - size_of::<ShmHeader>();
         let buf = vec![0; remaining];
+        #[cfg(aws_clock_bound_verif)]
+        verif_rt::point_io("wipe:body")?;
         file.write_all(&buf)?;
 
         // Make sure the amount of bytes written matches the segment size
@@ -213,6 +247,9 @@ impl ShmWriter {
                 ),
             ));
         }
+
+        #[cfg(aws_clock_bound_verif)]
+        verif_rt::point_io("wipe:sync")?;
 
         // Sync all and drop (close) the descriptor
         file.sync_all()?;
@@ -279,6 +316,8 @@ impl ShmWrite for ShmWriter {
             };
             generation.store(gen, atomic::Ordering::Release);
 
+            #[cfg(aws_clock_bound_verif)]
+            verif_rt::shm::write_record(self.ceb, ceb);
             self.ceb.write(*ceb);
 
             // Mark the end of the update into the memory segment by incrementing the generation
@@ -306,6 +345,9 @@ impl Drop for ShmWriter {
     /// TODO: revisit to see if this can be refactored into the MmapGuard logic implemented on the
     /// ShmReader.
     fn drop(&mut self) {
+        #[cfg(aws_clock_bound_verif)]
+        verif_rt::shm::unregister_mapping(self.addr.cast());
+
         unsafe {
             nix::sys::mman::munmap(self.addr, self.segsize).expect("munmap");
         }
